@@ -26,11 +26,15 @@ class Pipe(chan.ChannelScenario):
 
     name = "pipe"
 
+    def __init__(self, **params):
+        super().__init__(**params)
+        # (must be known before the first execution: monitored() is asked before configure())
+        if params.get("monitor_buffers"):
+            self.monitor_extra = tuple(self.monitor_extra) + ("buffers",)
+
     def configure(self, S):
         p = self.params
         S.send_alts = tuple(p.get("send_alts") or ())
-        if p.get("monitor_buffers"):
-            self.monitor_extra = ("buffers",)
         if p.get("fault_menu"):
             sites = set(p.get("fault_sites", ["send"]))
             S.fault_menu = tuple(p["fault_menu"])
